@@ -28,6 +28,9 @@ def plan(tier):
                          "(recursion depth up to 3)",
                    "impl": "n<=2000 random, <=300 repetitive; s in {1,2,3,5,n,n+1}; Occ rates {1,3,64,65,128}"},
         "assumptions": ["ndJsonDeserialize/TLC evaluate the TLA+ definitions faithfully",
+                        "a suffix array is accepted under ANY fixed total order of the sentinel occurrences (final "
+                        "sentinel smallest); agreement with the code's present order (reverse text order) is reported "
+                        "as MODEL-DRIFT only",
                         "texts end with their smallest symbol; integer texts use every value of 0..=max and end in a "
                         "unique 0 (documented preconditions)",
                         "for n > 12 the trace spec evaluates SusPairs (1 + longest lcp with any other suffix) instead "
@@ -36,13 +39,17 @@ def plan(tier):
 
 
 MANIFEST = {
-    "technique": "TLA+ definition of the sentinel-aware suffix order (Transform), LCP, SUS, sampling; machines of "
+    "technique": "TLA+ definition of the sentinel-aware suffix order (any admissible order of the sentinel "
+                 "occurrences with the final one smallest; the code's concrete order only as machine-layer "
+                 "conformance = DRIFT), LCP, SUS, sampling; machines of "
                  "SA-IS (types, LMS collection, induced sorts, naming, recursion stack), the "
                  "Kasai loop (with SmallInts escape), the SUS formula and the sampled-array LF walk model-checked by "
                  "TLC; traces of the real suffix_array/suffix_array_int/lcp/shortest_unique_substrings/"
                  "SampledSuffixArray validated by TLC against the definitions",
-    "text": "TLC exhausts all texts over 2 symbols plus up to 3 sentinel occurrences (n<=6/7): the order is a strict "
-            "total order with the stated sentinel rules and has exactly one sorted permutation; the SA-IS machine (transcribed phase by phase, shared "
+    "text": "TLC exhausts all texts over 2 symbols plus up to 3 sentinel occurrences (n<=6/7): for every admissible "
+            "order of the sentinel occurrences the induced comparison is a strict total order with the stated sentinel "
+            "rules and has exactly one sorted permutation, and the accepted arrays (IsValidSA: sorted under the sentinel "
+            "order read off the array) are exactly those; the SA-IS machine (transcribed phase by phase, shared "
             "buffers, explicit recursion) ends every level with the suffix array of its text; the Kasai machine "
             "yields LcpDef, the SUS formula yields the brute-force SUS, the sampled-array walk returns sa[i] for every "
             "rate and index; every recorded suffix array, integer suffix array, LCP array, SUS vector and sampled get "
